@@ -14,7 +14,7 @@ import (
 	"github.com/pip-services3-gox/pip-services3-expressions-gox/tokenizers/generic"
 )
 
-var tokKinds = []string{"generic", "expression", "csv", "mustache", "generic-custom", "generic-arrows", "csv-wide", "generic-quotes", "generic-unknownsym", "expression-custom", "generic-2quotes", "generic-interned"}
+var tokKinds = []string{"generic", "expression", "csv", "mustache", "generic-custom", "generic-arrows", "csv-wide", "generic-quotes", "generic-unknownsym", "generic-quotedsym", "expression-custom", "generic-2quotes", "generic-interned"}
 
 var optNames = []string{"skipUnknown", "skipWhitespaces", "skipComments", "skipEof", "mergeWhitespaces", "unifyNumbers", "decodeStrings"}
 
@@ -62,6 +62,15 @@ func newTokenizer(kind string) tokenizers.ITokenizer {
 		ws := &internedWS{inner: generic.NewGenericWhitespaceState(), lf: tokenizers.NewToken(tokenizers.Whitespace, "\n", 0, 0)}
 		t.SetWhitespaceState(ws)
 		t.SetCharacterState(0, ' ', ws)
+		return t
+	case "generic-quotedsym":
+		// registered symbols that carry the Quoted type (and begin and end with the same character): they are symbols, no quote
+		// state has read them
+		t := generic.NewGenericTokenizer()
+		t.SymbolState().Add("``", tokenizers.Quoted)
+		t.SymbolState().Add("|x|", tokenizers.Quoted)
+		t.SymbolState().Add("!!", tokenizers.Quoted)
+		t.SymbolState().Add("||", tokenizers.Word)
 		return t
 	case "generic-unknownsym":
 		// registered symbols that a state itself delivers with the Unknown type
@@ -346,6 +355,7 @@ var tokAlpha = map[string][]rune{
 	"csv-wide":           {'a', 0xff1b, 0xab, '"', '\r', '\n', 0x416, ',', 0x65e5},
 	"generic-quotes":     {'a', 0xab, 0x201c, '\'', '"', ' ', 0x416, '1', '\n'},
 	"generic-unknownsym": {'a', '?', '!', ' ', '1', '<', 0xffff, '#', '\n'},
+	"generic-quotedsym":  {'a', '`', '|', 'x', '!', ' ', '\'', '1', '#'},
 	"expression-custom":  {'a', '1', '-', '>', '=', '.', '<', ' ', '\''},
 	"generic-2quotes":    {'a', '`', '\'', '"', ' ', '1', '\n'},
 	"generic-interned":   {'a', ' ', '\n', '\r', '1', '#'},
@@ -362,6 +372,7 @@ var tokAlphaCore = map[string][]rune{
 	"csv-wide":           {'a', 0xff1b, 0xab, '\r', 0x416},
 	"generic-quotes":     {'a', 0xab, 0x201c, '\'', ' '},
 	"generic-unknownsym": {'a', '?', '!', ' ', 0xffff},
+	"generic-quotedsym":  {'a', '`', '|', 'x', '!', '\''},
 	"expression-custom":  {'a', '1', '-', '>', '='},
 	"generic-2quotes":    {'a', '`', '\'', ' '},
 	"generic-interned":   {'a', ' ', '\n', '\r'},
@@ -376,6 +387,7 @@ var tokSnippets = map[string][]string{
 	"csv-wide":           {"日本；語；«q；»»r«\r\nстрана；\"x\"\"y\"；；\n", "a,b；c\r«open；"},
 	"generic-quotes":     {"a «b c« “d“ 'e' \"f\" «open", "x«« ““y «'« “\"“"},
 	"generic-unknownsym": {"a ? b ?! c !? <= ?", "??!?\uffff?# c\n?"},
+	"generic-quotedsym":  {"a `` b |x| c !! 'q' || d", "``|x|!!`|x||x|!'``'"},
 	"expression-custom":  {"a->b => c-- -= -1 - 2 --3 ->> =>= <=> a-b", "x-->y -=- 1e-5 -.5 ->"},
 	"generic-2quotes":    {"a `b``c` 'd' \"e\" `open", "`` ```` `'` '`' x"},
 	"generic-interned":   {"a\nb \n c\n\nd \r\n e", "\n x # c\n\n"},
